@@ -104,6 +104,19 @@ func (o *Obs) Hold(e Event, name string) {
 	<-w.ch
 }
 
+// Park blocks the caller on a gate without logging anything (a pure yield point).
+func (o *Obs) Park(name string) {
+	o.mu.Lock()
+	if !o.Gated {
+		o.mu.Unlock()
+		return
+	}
+	w := &waiter{ch: make(chan struct{}), name: name}
+	o.waiting = append(o.waiting, w)
+	o.mu.Unlock()
+	<-w.ch
+}
+
 // StartController starts the releasing goroutine.
 func (o *Obs) StartController() {
 	o.stop = make(chan struct{})
